@@ -1,43 +1,82 @@
-//! Frequent items: drive FrequentItemsSketch<i64> and record traces for Trace_FreqItems.tla.
-use datasketches::frequencies::{ErrorType, FrequentItemsSketch};
+//! Frequent items: drive FrequentItemsSketch<i64 | u64 | String> and record traces for Trace_FreqItems.tla.
+use datasketches::frequencies::{ErrorType, FrequentItemValue, FrequentItemsSketch};
 use serde_json::{Value, json};
 
 use crate::refhash;
 use crate::util::*;
 
 /// low 20 bits of hash_item(item) = murmur3(Hash bytes of the item, seed 9001).h1
-pub fn lo_of(item: i64) -> u64 {
-    refhash::murmur3_x64_128(&refhash::hashed_bytes(&item), 9001).0 & ((1 << 20) - 1)
+pub fn lo_of<T: std::hash::Hash>(item: &T) -> u64 {
+    refhash::murmur3_x64_128(&refhash::hashed_bytes(item), 9001).0 & ((1 << 20) - 1)
 }
 
-pub struct Alpha {
-    pub items: Vec<i64>,
+/// the three item types the library serializes
+pub trait FiItem: FrequentItemValue + std::fmt::Debug {
+    const TY: &'static str;
+    /// the c-th candidate item
+    fn make(c: u64) -> Self;
+    /// the item's own bytes (8 little-endian bytes of an integer, the UTF-8 bytes of a string)
+    fn raw(&self) -> Vec<u8>;
+    /// length of the encoded item starting at x[0]
+    fn enc_len(x: &[u8]) -> usize;
 }
 
-impl Alpha {
+impl FiItem for i64 {
+    const TY: &'static str = "i64";
+    fn make(c: u64) -> Self { if c % 5 == 0 { -(c as i64) } else { c as i64 } }
+    fn raw(&self) -> Vec<u8> { self.to_le_bytes().to_vec() }
+    fn enc_len(_x: &[u8]) -> usize { 8 }
+}
+
+impl FiItem for u64 {
+    const TY: &'static str = "u64";
+    fn make(c: u64) -> Self { if c % 3 == 0 { u64::MAX - c } else { c } }
+    fn raw(&self) -> Vec<u8> { self.to_le_bytes().to_vec() }
+    fn enc_len(_x: &[u8]) -> usize { 8 }
+}
+
+impl FiItem for String {
+    const TY: &'static str = "str";
+    fn make(c: u64) -> Self {
+        match c % 4 {
+            0 => format!("{c}"),
+            1 => format!("item-{c}-\u{e9}\u{4e16}"),      // multi-byte characters: byte length != char count
+            2 => format!("{}{c}", "x".repeat((c % 40) as usize)),
+            _ => format!("k{c}"),
+        }
+    }
+    fn raw(&self) -> Vec<u8> { self.as_bytes().to_vec() }
+    fn enc_len(x: &[u8]) -> usize { 4 + u32::from_le_bytes([x[0], x[1], x[2], x[3]]) as usize }
+}
+
+pub struct Alpha<T> {
+    pub items: Vec<T>,
+}
+
+impl<T: FiItem> Alpha<T> {
     /// id of an item = its index + 1
     fn x(&self, idx: usize) -> Value {
-        json!([idx + 1, lo_of(self.items[idx])])
+        json!([idx + 1, lo_of(&self.items[idx])])
     }
-    fn id_of(&self, item: i64) -> usize {
-        self.items.iter().position(|&i| i == item).map(|p| p + 1).unwrap_or(0)
+    fn id_of(&self, item: &T) -> usize {
+        self.items.iter().position(|i| i == item).map(|p| p + 1).unwrap_or(0)
     }
 }
 
-fn sc(s: &FrequentItemsSketch<i64>) -> Value {
+fn sc<T: FiItem>(s: &FrequentItemsSketch<T>) -> Value {
     json!({"na": s.num_active_items(), "off": s.maximum_error(), "wt": s.total_weight(), "lg": s.lg_cur_map_size()})
 }
 
-fn slots(s: &FrequentItemsSketch<i64>, a: &Alpha) -> Value {
+fn slots<T: FiItem>(s: &FrequentItemsSketch<T>, a: &Alpha<T>) -> Value {
     json!(s.verif_slots().iter().map(|(k, v, d)| match k {
-        Some(item) => json!([a.id_of(*item), lo_of(*item), v, d]),
+        Some(item) => json!([a.id_of(item), lo_of(item), v, d]),
         None => json!([0, 0, 0, 0]),
     }).collect::<Vec<_>>())
 }
 
-/// equality of two i64 frequent-items images up to the order of the (value, item) pairs, which
+/// equality of two frequent-items images up to the order of the (value, item) pairs, which
 /// follows the slot order of the writer's map
-pub fn same_mod_order(a: &[u8], b: &[u8]) -> bool {
+pub fn same_mod_order<T: FiItem>(a: &[u8], b: &[u8]) -> bool {
     if a.len() != b.len() {
         return false;
     }
@@ -47,26 +86,39 @@ pub fn same_mod_order(a: &[u8], b: &[u8]) -> bool {
     if a[..32] != b[..32] {
         return false;
     }
-    let n = (a.len() - 32) / 16;
-    let pairs = |x: &[u8]| {
-        let mut v: Vec<(Vec<u8>, Vec<u8>)> = (0..n)
-            .map(|i| (x[32 + 8 * i..40 + 8 * i].to_vec(), x[32 + 8 * n + 8 * i..40 + 8 * n + 8 * i].to_vec()))
-            .collect();
+    let n = u32::from_le_bytes([a[8], a[9], a[10], a[11]]) as usize;
+    let pairs = |x: &[u8]| -> Option<Vec<(Vec<u8>, Vec<u8>)>> {
+        let mut v = vec![];
+        let mut at = 32 + 8 * n;
+        for i in 0..n {
+            if at + 4 > x.len() && T::TY == "str" {
+                return None;
+            }
+            let len = T::enc_len(&x[at.min(x.len() - 4)..]);
+            if at + len > x.len() {
+                return None;
+            }
+            v.push((x[32 + 8 * i..40 + 8 * i].to_vec(), x[at..at + len].to_vec()));
+            at += len;
+        }
         v.sort();
-        v
+        Some(v)
     };
-    pairs(a) == pairs(b)
+    match (pairs(a), pairs(b)) {
+        (Some(x), Some(y)) => x == y,
+        _ => false,
+    }
 }
 
-pub struct Sess<'a> {
+pub struct Sess<'a, T: FiItem> {
     out: &'a mut Shards,
-    sk: Vec<FrequentItemsSketch<i64>>,
-    a: Alpha,
+    sk: Vec<FrequentItemsSketch<T>>,
+    a: Alpha<T>,
     dead: bool,
 }
 
-impl<'a> Sess<'a> {
-    pub fn new(out: &'a mut Shards, scn: &str, a: Alpha) -> Self {
+impl<'a, T: FiItem> Sess<'a, T> {
+    pub fn new(out: &'a mut Shards, scn: &str, a: Alpha<T>) -> Self {
         out.next_run(scn);
         Sess { out, sk: vec![], a, dead: false }
     }
@@ -82,7 +134,7 @@ impl<'a> Sess<'a> {
     }
     pub fn upd(&mut self, id: usize, idx: usize, w: u64) {
         if self.dead { return; }
-        let item = self.a.items[idx];
+        let item = self.a.items[idx].clone();
         let r = catch(std::panic::AssertUnwindSafe(|| self.sk[id].update_with_count(item, w)));
         if let Err(e) = r { return self.panic("update_with_count", e); }
         let v = json!({"op":"FUpd","id":id,"x":self.a.x(idx),"w":w,"st":sc(&self.sk[id])});
@@ -106,17 +158,17 @@ impl<'a> Sess<'a> {
         if self.dead { return; }
         let s = &self.sk[id];
         let q: Vec<Value> = (0..self.a.items.len()).map(|i| {
-            let it = self.a.items[i];
-            json!([i + 1, lo_of(it), s.lower_bound(&it), s.upper_bound(&it), s.estimate(&it)])
+            let it = &self.a.items[i];
+            json!([i + 1, lo_of(it), s.lower_bound(it), s.upper_bound(it), s.estimate(it)])
         }).collect();
-        let mut nfp: Vec<usize> = s.frequent_items(ErrorType::NoFalsePositives).iter().map(|r| self.a.id_of(*r.item())).collect();
-        let mut nfn: Vec<usize> = s.frequent_items(ErrorType::NoFalseNegatives).iter().map(|r| self.a.id_of(*r.item())).collect();
+        let mut nfp: Vec<usize> = s.frequent_items(ErrorType::NoFalsePositives).iter().map(|r| self.a.id_of(r.item())).collect();
+        let mut nfn: Vec<usize> = s.frequent_items(ErrorType::NoFalseNegatives).iter().map(|r| self.a.id_of(r.item())).collect();
         nfp.sort();
         nfn.sort();
-        let mut v = json!({"op":"FChk","id":id,"slots":slots(s, &self.a),"q":q,"nfp":nfp,"nfn":nfn,"maxerr":s.maximum_error()});
+        let mut v = json!({"op":"FChk","id":id,"slots":slots(s, &self.a),"q":q,"nfp":nfp,"nfn":nfn,"maxerr":s.maximum_error(),"ty":T::TY});
         if s.lg_cur_map_size() <= 6 {
             v["img"] = json!(s.serialize());
-            v["ib"] = json!(s.verif_slots().iter().filter_map(|(k, _, _)| k.map(|x| x.to_le_bytes().to_vec())).collect::<Vec<_>>());
+            v["ib"] = json!(s.verif_slots().iter().filter_map(|(k, _, _)| k.as_ref().map(|x| x.raw())).collect::<Vec<_>>());
         }
         self.out.ev(v);
     }
@@ -129,14 +181,14 @@ impl<'a> Sess<'a> {
         let s = self.sk[id].clone();
         let r = catch(std::panic::AssertUnwindSafe(|| {
             let bytes = s.serialize();
-            let back = FrequentItemsSketch::<i64>::deserialize(&bytes).map_err(|e| format!("{e:?}"));
+            let back = FrequentItemsSketch::<T>::deserialize(&bytes).map_err(|e| format!("{e:?}"));
             (bytes, back)
         }));
         match r {
             Ok((bytes, Ok(b))) => {
                 let again = b.serialize();
                 let v = json!({"op":"FRT","id":id,"to":to,"slots":slots(&b, &self.a),"st":sc(&b),"same":again == bytes,
-                    "samex":same_mod_order(&again, &bytes),"len":bytes.len()});
+                    "samex":same_mod_order::<T>(&again, &bytes),"len":bytes.len()});
                 self.out.ev(v);
                 self.sk.push(b);
             }
@@ -156,22 +208,23 @@ impl<'a> Sess<'a> {
 
 /// items chosen so that their home slots (for a map of 2^lg slots) form long clusters,
 /// including one that wraps around the end of the array
-fn clustered_items(rng: &mut Rng, lg: u8, n: usize) -> Vec<i64> {
+fn clustered_items<T: FiItem>(rng: &mut Rng, lg: u8, n: usize) -> Vec<T> {
     let size = 1u64 << lg;
     let mut items = vec![];
-    let mut cand = rng.next() as i64 & 0xffff_ffff;
+    let mut cand = rng.next() & 0xffff_ffff;
     let homes = [size - 2, size - 1, 0, 1, size / 2];
     while items.len() < n {
         cand += 1;
-        let h = lo_of(cand) % size;
+        let it = T::make(cand);
+        let h = lo_of(&it) % size;
         if homes.contains(&h) || rng.chance(1, 6) {
-            items.push(cand);
+            items.push(it);
         }
     }
     items
 }
 
-fn stream(s: &mut Sess, rng: &mut Rng, id: usize, n_items: usize, n: usize, shape: u8) {
+fn stream<T: FiItem>(s: &mut Sess<T>, rng: &mut Rng, id: usize, n_items: usize, n: usize, shape: u8) {
     for i in 0..n {
         if s.dead { break; }
         let idx = match shape {
@@ -194,24 +247,19 @@ fn stream(s: &mut Sess, rng: &mut Rng, id: usize, n_items: usize, n: usize, shap
     s.chk(id);
 }
 
-pub fn record(args: &Args) {
-    let seed = args.u64("seed", 1);
-    let mut rng = Rng::new(seed ^ 0xF1F1);
-    let thorough = args.thorough();
-    let mut out = Shards::create(&args.str("out", "fi"), args.u64("shards", 8) as usize);
-    let reps = if thorough { 6 } else { 1 };
-    for _ in 0..reps {
+fn scenarios<T: FiItem>(out: &mut Shards, rng: &mut Rng, thorough: bool, full: bool) {
+        {
         // single sketches, every stream shape
-        for &lgmax in &[3u8, 4, 5, 6, 7] {
+        for &lgmax in if full { &[3u8, 4, 5, 6, 7][..] } else { &[3u8, 4, 6][..] } {
             for shape in 0..4u8 {
                 let cap = 3 * (1usize << lgmax) / 4;
                 let n_items = cap + 1 + rng.below(2 * cap as u64) as usize;
-                let a = Alpha { items: clustered_items(&mut rng, lgmax, n_items) };
-                let mut s = Sess::new(&mut out, "fi-stream", a);
+                let a = Alpha::<T> { items: clustered_items(&mut *rng, lgmax, n_items) };
+                let mut s = Sess::new(&mut *out, "fi-stream", a);
                 let id = s.new_sketch(lgmax);
-                stream(&mut s, &mut rng, id, n_items, (6 * n_items).min(if thorough { 900 } else { 500 }), shape);
+                stream(&mut s, &mut *rng, id, n_items, (6 * n_items).min(if thorough { 900 } else { 500 }), shape);
                 let r = s.rt(id);
-                stream(&mut s, &mut rng, r, n_items, 40, 0);
+                stream(&mut s, &mut *rng, r, n_items, 40, 0);
                 s.reset(id);
                 s.chk(id);
                 let e = s.rt(id);
@@ -221,8 +269,8 @@ pub fn record(args: &Args) {
         // Appendix B: all-equal counts make the purge remove every counter, then merge / serialize
         for &lgmax in &[3u8, 4, 5] {
             let cap = 3 * (1usize << lgmax) / 4;
-            let a = Alpha { items: clustered_items(&mut rng, lgmax, 3 * cap) };
-            let mut s = Sess::new(&mut out, "fi-purge-to-empty", a);
+            let a = Alpha::<T> { items: clustered_items(&mut *rng, lgmax, 3 * cap) };
+            let mut s = Sess::new(&mut *out, "fi-purge-to-empty", a);
             let x = s.new_sketch(lgmax);
             for i in 0..=cap { s.upd(x, i, 1); }
             s.chk(x);
@@ -246,17 +294,17 @@ pub fn record(args: &Args) {
             s.chk(v);
         }
         // merge trees of 2..5 sketches of equal and different sizes, round trips at nodes
-        for t in 0..(if thorough { 10 } else { 6 }) {
+        for t in 0..(if !full { 2 } else if thorough { 10 } else { 6 }) {
             let lgs: Vec<u8> = (0..rng.range(2, 5)).map(|_| if t % 2 == 0 { 4 } else { *rng.pick(&[3u8, 4, 5, 6]) }).collect();
             let n_items = 40 + rng.below(40) as usize;
-            let a = Alpha { items: clustered_items(&mut rng, 5, n_items) };
-            let mut s = Sess::new(&mut out, "fi-merge-tree", a);
+            let a = Alpha::<T> { items: clustered_items(&mut *rng, 5, n_items) };
+            let mut s = Sess::new(&mut *out, "fi-merge-tree", a);
             let mut ids = vec![];
             for &lg in &lgs {
                 let id = s.new_sketch(lg);
                 let shape = rng.below(4) as u8;
                 let len = 60 + rng.below(120) as usize;
-                stream(&mut s, &mut rng, id, n_items, len, shape);
+                stream(&mut s, &mut *rng, id, n_items, len, shape);
                 ids.push(id);
             }
             while ids.len() > 1 && !s.dead {
@@ -268,12 +316,12 @@ pub fn record(args: &Args) {
             }
             let last = ids[0];
             let r = s.rt(last);
-            stream(&mut s, &mut rng, r, n_items, 30, 1);
+            stream(&mut s, &mut *rng, r, n_items, 30, 1);
         }
         // one large map (purge sample = first 1024 active counters in slot order)
-        if thorough {
-            let a = Alpha { items: (0..4000).map(|i| i * 7 + 1).collect() };
-            let mut s = Sess::new(&mut out, "fi-large", a);
+        if thorough && full {
+            let a = Alpha::<T> { items: (0..4000u64).map(|i| T::make(i * 7 + 1)).collect() };
+            let mut s = Sess::new(&mut *out, "fi-large", a);
             let id = s.new_sketch(11);
             for _ in 0..6000usize {
                 let idx = if rng.chance(1, 4) { rng.below(20) as usize } else { rng.below(4000) as usize };
@@ -281,6 +329,22 @@ pub fn record(args: &Args) {
                 if s.dead { break; }
             }
             s.chk(id);
+        }
+    }
+}
+
+pub fn record(args: &Args) {
+    let seed = args.u64("seed", 1);
+    let mut rng = Rng::new(seed ^ 0xF1F1);
+    let thorough = args.thorough();
+    let mut out = Shards::create(&args.str("out", "fi"), args.u64("shards", 8) as usize);
+    let reps = if thorough { 6 } else { 1 };
+    for rep in 0..reps {
+        scenarios::<i64>(&mut out, &mut rng, thorough, true);
+        // the other two serializable item types: same procedures, fewer repetitions
+        if rep == 0 || thorough {
+            scenarios::<u64>(&mut out, &mut rng, thorough, false);
+            scenarios::<String>(&mut out, &mut rng, thorough, false);
         }
     }
     if let Some(path) = args.get("in") {
@@ -300,10 +364,10 @@ pub fn replay_gen(out: &mut Shards, path: &str) {
         let items: Vec<i64> = b["lows"].as_array().unwrap().iter().enumerate().map(|(i, v)| {
             let want = v.as_u64().unwrap();
             let mut c = 1000 * (i as i64 + 1);
-            while lo_of(c) % 16 != want { c += 1; }
+            while lo_of(&c) % 16 != want { c += 1; }
             c
         }).collect();
-        let a = Alpha { items };
+        let a = Alpha::<i64> { items };
         let mut s = Sess::new(out, "fi-tlc-behaviour", a);
         let x = s.new_sketch(lgmax);
         let y = s.new_sketch(lgmax);
